@@ -268,7 +268,7 @@ def mc(ctx, name, module, cfg, workers=12, timeout=1800, env=None, heap="8g", mu
     return r
 
 
-COV_RE = re.compile(r"<(\w+) line \d+, col \d+ to line \d+, col \d+ of module (\w+)>: (\d+):(\d+)")
+COV_RE = re.compile(r"<(\w+) line \d+, col \d+ to line \d+, col \d+ of module (\w+)(?: \([\d ]+\))?>: (\d+):(\d+)")
 
 
 def action_coverage(out):
@@ -309,7 +309,7 @@ def validate_trace(spec, cfg, trace, metadir, timeout=1800, heap="12g"):
 
 SEG_MARKER = {"Trace_Api.tla": '"ev":"Reset"', "Trace_Sink.tla": '"ev":"KNew"', "Trace_File.tla": '"ev":',
               "Trace_Build.tla": '"ev":"TNew"', "Trace_Aut.tla": '"ev":', "Trace_Lev.tla": '"ev":', "Trace_Merge.tla": '"ev":"Run"',
-              "Trace_Mem.tla": '"ev":', "Trace_Cli.tla": '"ev":'}
+              "Trace_Mem.tla": '"ev":', "Trace_Cli.tla": '"ev":', "Trace_Step.tla": '"ev":"LNew"'}
 
 
 def segment_bounds(path, d, marker='"ev":"Reset"'):
